@@ -98,6 +98,7 @@ const (
 	FeeLowerPlusExtraDenom
 	FeeLiteral
 	FeeHigherPlusExtraDenom
+	FeeFirstModuleOnly // pay what the first fee-bearing operation's module costs in total, nothing for the other module
 )
 
 type FeeSpec struct {
